@@ -420,7 +420,11 @@ func c17Check(env *core.Env, cc core.Case) core.Verdict {
 		// the long line is an entry of the assembly file; the generated regex is written into the rules file
 		long := "q" + longBody(c.Len-1)
 		lines := c.place(long, func(i int) string { return c17Words[i%len(c17Words)] })
-		rc := &rulesCase{Rules: []ruleSpec{{ID: "932100", Chain: []ruleOp{{"@rx", "old"}}}, {ID: "932110", Chain: []ruleOp{{"@rx", "other"}}}},
+		other := "other"
+		if c.Pos != "first" {
+			other = "r" + longBody(c.Len-1) // a long line further down in the rules file than the line that is rewritten
+		}
+		rc := &rulesCase{Rules: []ruleSpec{{ID: "932100", Chain: []ruleOp{{"@rx", "old"}}}, {ID: "932110", Chain: []ruleOp{{"@rx", other}}}},
 			Sources: map[string]string{"932100": c.join(lines)}, NoFinal: c.NoFinal, TargetID: "932100", Target: "932100"}
 		if err := rc.tree().Write(root); err != nil {
 			return core.Incon("cannot write tree: %v", err)
